@@ -1,7 +1,92 @@
-(* C11 placeholder: theorems land with Proofs/CfgProofs.v *)
-From Coq Require Import ZArith List.
-From V Require Import Result Cfg.
+(* C11 -- the CFG is a set of edges with consistent adjacency views.
+   Model: Model/Cfg.v (cfg.py: CFG over a networkx.MultiDiGraph, the collections.abc.MutableSet mixins; block.py:
+   CfgNode.incoming_edges / outgoing_edges).  Abstraction: edges g = the set of (source, target, label) triples.
+   Proofs: Proofs/CfgProofs.v. *)
+From Coq Require Import ZArith List Bool.
+From V Require Import Result Cfg CfgProofs.
 Import ListNotations.
-Theorem C11_clear_empty : forall g, edges (clear g) = [].
-Proof. reflexivity. Qed.
-Print Assumptions C11_clear_empty.
+Open Scope Z_scope.
+
+(* every state reachable by any sequence of add, discard, remove, pop, clear, update, |=, &=, -=, ^= is a set
+   (no triple twice; one multigraph edge per element) *)
+Theorem C11_reachable_is_set : forall ops, CfgInv (crun ops).
+Proof. exact crun_inv. Qed.
+
+(* each operation is the mathematical set operation (cop_post is the abstract transformer), and fails exactly when
+   the built-in set would (remove of an absent element, pop on the empty set) *)
+Theorem C11_step_refines_set : forall g o g', CfgInv g -> cstep g o = Ok g' ->
+  CfgInv g' /\ forall x, In x (edges g') <-> cop_post o (fun y => In y (edges g)) x.
+Proof. exact cstep_ok. Qed.
+Theorem C11_step_fails_like_set : forall g o er, cstep g o = Err er <-> cop_fails o g er.
+Proof. exact cstep_err. Qed.
+
+(* membership, length and iteration agree with that set *)
+Theorem C11_contains : forall g e, contains g e = true <-> In e (edges g).
+Proof. exact contains_spec. Qed.
+Theorem C11_len : forall g, CfgInv g -> len g = Z.of_nat (length (edges g)).
+Proof. exact len_spec. Qed.
+Theorem C11_iter_nodup : forall ops, NoDup (edges (crun ops)).
+Proof. intro ops. exact (proj1 (crun_inv ops)). Qed.
+
+(* adding a present edge or discarding an absent one changes nothing *)
+Theorem C11_add_present : forall g e, contains g e = true -> add g e = g.
+Proof. exact add_present. Qed.
+Theorem C11_discard_absent : forall g e, contains g e = false -> discard g e = g.
+Proof. exact discard_absent. Qed.
+Theorem C11_add : forall g e x, In x (edges (add g e)) <-> In x (edges g) \/ x = e.
+Proof. intros g e x. apply add_spec. Qed.
+Theorem C11_discard : forall g e, CfgInv g -> forall x, In x (edges (discard g e)) <-> In x (edges g) /\ x <> e.
+Proof. exact discard_spec. Qed.
+
+(* parallel edges differing only in label (a missing label is distinct from every label) coexist *)
+Theorem C11_parallel : forall g s t l1 l2, l1 <> l2 ->
+  contains (add (add g (s,t,l1)) (s,t,l2)) (s,t,l1) = true /\ contains (add (add g (s,t,l1)) (s,t,l2)) (s,t,l2) = true.
+Proof. exact parallel_edges. Qed.
+Theorem C11_parallel_discard_other : forall g e1 e2, CfgInv g -> e1 <> e2 -> contains g e2 = true -> contains (discard g e1) e2 = true.
+Proof. exact parallel_discard_other. Qed.
+
+(* adjacency views *)
+Theorem C11_out_edges : forall g n x, In x (out_edges g n) <-> In x (edges g) /\ fst (fst x) = n.
+Proof. intros g n x. apply out_edges_spec. Qed.
+Theorem C11_in_edges : forall g n x, In x (in_edges g n) <-> In x (edges g) /\ snd (fst x) = n.
+Proof. intros g n x. apply in_edges_spec. Qed.
+Theorem C11_out_edges_once : forall g n, CfgInv g -> NoDup (out_edges g n).
+Proof. exact out_edges_NoDup. Qed.
+Theorem C11_in_edges_once : forall g n, CfgInv g -> NoDup (in_edges g n).
+Proof. exact in_edges_NoDup. Qed.
+Theorem C11_node_out : forall cfg_of ir_of_node n,
+  node_out cfg_of ir_of_node n = match ir_of_node with Some ir => out_edges (cfg_of ir) n | None => [] end.
+Proof. exact node_out_spec. Qed.
+Theorem C11_node_in : forall cfg_of ir_of_node n,
+  node_in cfg_of ir_of_node n = match ir_of_node with Some ir => in_edges (cfg_of ir) n | None => [] end.
+Proof. exact node_in_spec. Qed.
+
+(* comparisons *)
+Theorem C11_le : forall g other, CfgInv g -> NoDup other -> le_set g other = true <-> incl (edges g) other.
+Proof. exact le_set_spec. Qed.
+Theorem C11_eq : forall g other, CfgInv g -> NoDup other -> eq_set g other = true <-> (forall x, In x (edges g) <-> In x other).
+Proof. exact eq_set_spec. Qed.
+Theorem C11_isdisjoint : forall g other, isdisjoint g other = true <-> (forall x, In x other -> ~ In x (edges g)).
+Proof. exact isdisjoint_spec. Qed.
+
+Print Assumptions C11_reachable_is_set.
+Print Assumptions C11_step_refines_set.
+Print Assumptions C11_step_fails_like_set.
+Print Assumptions C11_contains.
+Print Assumptions C11_len.
+Print Assumptions C11_iter_nodup.
+Print Assumptions C11_add_present.
+Print Assumptions C11_discard_absent.
+Print Assumptions C11_add.
+Print Assumptions C11_discard.
+Print Assumptions C11_parallel.
+Print Assumptions C11_parallel_discard_other.
+Print Assumptions C11_out_edges.
+Print Assumptions C11_in_edges.
+Print Assumptions C11_out_edges_once.
+Print Assumptions C11_in_edges_once.
+Print Assumptions C11_node_out.
+Print Assumptions C11_node_in.
+Print Assumptions C11_le.
+Print Assumptions C11_eq.
+Print Assumptions C11_isdisjoint.
